@@ -11,12 +11,12 @@ from vlib.wsgi import call_app
 
 ID = 'C08'
 LEVEL = 'exploration'
-QUICK_SHARDS = 4
+QUICK_SHARDS = 8
 RULE = ('case = 2-3 requests (kinds of vlib/site.py: cookie+header+status from request data, JSON / HTML error pages for 404, 405, invalid JSON, malformed chunked '
         'body, oversized body, handler crash, raised response with cookie, multipart form echo, generator body, cookie-then-abort; debug off or on) served on ONE '
         'fresh application, each on its own thread under a deterministic scheduler (vlib/sched.py: every line event inside the ombott package and the handler '
         'module is a yield point; exactly one thread holds the baton; a schedule is a list of [thread, steps]). Schedules: for a fixed set of ordered scenario pairs '
-        'EVERY single-preemption schedule (run A for k steps, run B to completion, finish A; all k) exhaustively, for four same-kind pairs also the two-preemption schedules (A k steps, B m steps, A to the end, B to the end) on a stride, plus Hypothesis-generated schedules of 2-40 '
+        'EVERY single-preemption schedule (run A for k steps, run B to completion, finish A; all k) exhaustively, after a warm-up of 8-33 sequential requests of one kind the other thread pre-empted at every step while that kind is served once more, for five same-kind pairs also the two-preemption schedules (A k steps, B m steps, A to the end, B to the end) on a stride, plus Hypothesis-generated schedules of 2-40 '
         'segments over 2-3 threads (opcode granularity for a fraction in thorough). Oracle: the complete response of each thread (status line, header multiset, '
         'body) == the response of the same request served alone on a fresh application; in-handler probes (request.environ identity, path, query string, cookie, '
         'response header / cookie written earlier in the same handler) always show the own request of the thread. Non-trivial = at least one switch away from a thread '
@@ -83,6 +83,8 @@ def run_case(ctx, case, count_only=False):
                 problems.append(f'ok:end: request cookie seen={rq.get_cookie("seen")!r}, own Cookie header {want!r}')
 
     app = S.make_app(probe=probe, config={'debug': debug}, private_errors=True)
+    for wk, wn in case.get('warm') or ():
+        call_app(app, S.make_env(wk, wn))
 
     def make_fn(i, kind, n):
         def fn():
@@ -141,7 +143,8 @@ PAIRS = [('ok', 'ok'), ('ok', 'crash'), ('badjson', 'badjson'), ('form', 'ok'), 
          ('raised', 'raised'), ('gen', 'gen'), ('head_ok', 'ok'), ('badjson', 'badmultipart'), ('badmultipart', 'badjson'), ('oversized', 'bigform'), ('bigform', 'oversized'),
          ('badchunk', 'badchunk'), ('notfound_json', 'crash'), ('chunked_ok', 'chunked_ok'), ('header_case', 'ok'), ('header_case', 'header_case'), ('notmodified', 'ok'),
          ('nocontent', 'ok'), ('inject_arg', 'ok'), ('ok', 'notmodified'), ('chunked_ok', 'badchunk'), ('form_fixed', 'form_fixed'), ('ok', 'resp_copy'),
-         ('expires', 'resp_copy'), ('sess_mutate', 'sess_mutate'), ('form_fixed', 'form')]
+         ('expires', 'resp_copy'), ('sess_mutate', 'sess_mutate'), ('form_fixed', 'form'), ('qs_reassign', 'qs_reassign'), ('urlinfo', 'ok'), ('ok', 'urlinfo'), ('api_404', 'notfound'),
+         ('notfound', 'api_404'), ('api_item', 'urlinfo'), ('neg_cl', 'ok')]
 
 def _reqs():
     anyk = st.lists(st.tuples(st.sampled_from(S.KINDS), st.integers(0, 30)).map(list), min_size=2, max_size=3)
@@ -150,7 +153,10 @@ def _reqs():
     return st.one_of(anyk, same)
 
 
-PAIRS2 = [('form_fixed', 'form_fixed'), ('chunked_ok', 'chunked_ok'), ('rex', 'rex'), ('expires', 'expires')]
+PAIRS2 = [('form_fixed', 'form_fixed'), ('chunked_ok', 'chunked_ok'), ('rex', 'rex'), ('expires', 'expires'), ('qs_reassign', 'qs_reassign')]
+# scenario pairs served after a warm-up of w sequential requests of the first kind (what earlier traffic taught the application must not matter)
+_WK = ['crash', 'raised', 'gen', 'cookie_then_abort']          # handlers registered one after the other (neighbours in whatever the router keeps per node)
+WARM = [(a, b) for a in _WK for b in _WK if a != b] + [('gen', 'ok'), ('ok', 'gen')]
 
 CASE = st.fixed_dictionaries({
     'reqs': _reqs(),
@@ -180,6 +186,17 @@ def run(ctx):
                 ctx.guarded(check_case, dict(base, schedule=[[0, k], [1, BIG], [0, BIG]]))
             ctx.count('bound1_scenarios')
             ctx.count('bound1_schedules', ya // stride + 1)
+    # the same after a warm-up: w sequential requests of kind a, then b is pre-empted at every step while a runs to completion (and the reverse)
+    for pi, (a, b) in enumerate(WARM):
+        if pi % max(1, ctx.nshards) != ctx.shard % max(1, ctx.nshards):
+            continue
+        for w in ((9, 17) if ctx.tier == 'quick' else (1, 7, 8, 9, 10, 16, 17, 24, 33)):
+            base = {'reqs': [[a, 1], [b, 2]], 'debug': False, 'warm': [[a, 3]] * w}
+            yb = run_case(ctx, dict(base, schedule=[[1, BIG]]), count_only=True)[1]
+            for k in range(0, yb + 1):
+                ctx.guarded(check_case, dict(base, schedule=[[1, k], [0, BIG], [1, BIG]]))
+            ctx.count('warmed_up_scenarios')
+            ctx.count('warmed_up_schedules', yb + 1)
     # two-preemption schedules (A runs k steps, B runs m steps, A finishes, B finishes) for pairs that meet in shared code, on a stride
     stride2 = 9 if ctx.tier == 'quick' else 3
     for pi, (a, b) in enumerate(PAIRS2):
